@@ -21,6 +21,16 @@ class Boom(Exception):
     pass
 
 
+class BoomBase(BaseException):
+    """leaves a with-block like KeyboardInterrupt / SystemExit do: not an Exception subclass"""
+
+
+# how the same program is run on the implementation (the model is the same for all of them): which exception class leaves
+# the blocks, and whether the pool handlers are created inline (`with a.enable_pool(...)`) or all up front and entered later
+VARIANTS = [("Exception", False), ("BaseException", False), ("KeyboardInterrupt", False), ("Exception", True), ("BaseException", True)]
+EXC = {"Exception": Boom, "BaseException": BoomBase, "KeyboardInterrupt": KeyboardInterrupt}
+
+
 class FakePool:
     def __init__(self, pid):
         self.pid = pid
@@ -85,6 +95,8 @@ class Env:
         self.fresh = 2
         self.events = []
         self.clause_failures = []
+        self.exc_cls = Boom
+        self.prebuilt = None          # id(pool node) -> (FakePool, handler) when handlers are built before the program runs
 
     def token(self, obj, expected_new):
         if id(obj) not in self.tok:
@@ -111,7 +123,7 @@ def run_prog(env: Env, p):
             d["saved_flow"] = True
         return False
     if k == "raise":
-        raise Boom()
+        raise env.exc_cls()
     if k == "obs":
         env.events.append(("seen", env.token(a.log_likelihood, None), env.token(a.log_prior, None), env.snapshot()))
         return False
@@ -121,13 +133,16 @@ def run_prog(env: Env, p):
         return False
     if k == "pool":
         _, pid, close, par, body = p
-        pool = FakePool(pid)
+        if env.prebuilt is not None:
+            pool, handler = env.prebuilt[id(p)]
+        else:
+            pool, handler = FakePool(pid), None
         ll0, lp0 = a.log_likelihood, a.log_prior
         d0 = getattr(a, "_checkpoint_defaults", None)
         base = env.fresh
         env.fresh += 2
         try:
-            with a.enable_pool(pool, close_pool=close, parallelize_prior=par):
+            with (handler if handler is not None else a.enable_pool(pool, close_pool=close, parallelize_prior=par)):
                 env.token(a.log_likelihood, base)
                 if par:
                     env.token(a.log_prior, base + 1)
@@ -163,16 +178,33 @@ def run_prog(env: Env, p):
     raise ValueError(k)
 
 
-def execute(p, d0):
+def prebuild(env, p):
+    """create the handler of every pool node before anything is entered (ExitStack / helper-function style)"""
+    if p[0] == "pool":
+        _, pid, close, par, body = p
+        pool = FakePool(pid)
+        env.prebuilt[id(p)] = (pool, env.a.enable_pool(pool, close_pool=close, parallelize_prior=par))
+        prebuild(env, body)
+    elif p[0] == "auto":
+        prebuild(env, p[5])
+    elif p[0] == "seq":
+        prebuild(env, p[1]); prebuild(env, p[2])
+
+
+def execute(p, d0, variant=("Exception", False)):
     a = make_instance()
     if d0 is not None:
         a._checkpoint_defaults = {"path": path_name(d0[0]), "every": d0[1], "save_config": bool(d0[2]), "save_flow": bool(d0[3]),
                                   "saved_config": False, "saved_flow": False}
     env = Env(a)
+    env.exc_cls = EXC[variant[0]]
+    if variant[1]:
+        env.prebuilt = {}
+        prebuild(env, p)
     raised = False
     try:
         run_prog(env, p)
-    except Boom:
+    except env.exc_cls:
         raised = True
     final = (env.token(a.log_likelihood, None), env.token(a.log_prior, None), env.snapshot())
     return raised, final, env
@@ -230,14 +262,17 @@ def rand_prog(r, d):
 def check_progs(chk, progs, exhaustive_note=None):
     drv = core.LeanDriver()
     lines, runs = [], []
-    for p, d0 in progs:
+    for item in progs:
+        p, d0 = item[0], item[1]
         p = renumber(p, [10])
         lines.append("f64 ctx " + ("1 " + " ".join(str(int(v)) for v in d0) if d0 is not None else "0") + " " + wire(p))
-        runs.append((p, d0, execute(p, d0)))
-    for (p, d0, (raised, final, env)), rep in zip(runs, drv.batch(lines)):
+        variant = tuple(item[2]) if len(item) > 2 and item[2] else VARIANTS[len(runs) % len(VARIANTS)]
+        chk.count(f"variant:{variant[0]}/{'prebuilt' if variant[1] else 'inline'}")
+        runs.append((p, d0, execute(p, d0, variant), variant))
+    for (p, d0, (raised, final, env), variant), rep in zip(runs, drv.batch(lines)):
         if not rep.ok:
             raise core.HarnessError(rep.err + " :: " + wire(p))
-        case = {"prog": wire(p), "initial_defaults": d0}
+        case = {"prog": wire(p), "initial_defaults": d0, "variant": list(variant)}
         nontriv = ("pool" in wire(p) or "auto" in wire(p))
         chk.count(f"depth:{depth(p)}")
         if "raise" in wire(p):
@@ -320,7 +355,8 @@ def replay(chk: core.Check, path: str) -> int:
     doc = json.loads(open(path).read())
     p = doc["payload"]
     cases = [p["case"]] if "case" in p else [d["case"] for d in p.get("correspondence", [])]
-    check_progs(chk, [(parse_wire(c["prog"].split()), tuple(c["initial_defaults"]) if c.get("initial_defaults") else None) for c in cases])
+    check_progs(chk, [(parse_wire(c["prog"].split()), tuple(c["initial_defaults"]) if c.get("initial_defaults") else None, c.get("variant"))
+                      for c in cases])
     for f in chk.failures[:10]:
         print("FAIL", f["clause"], f["detail"])
     for d in chk.disagreements[:5]:
